@@ -8,14 +8,30 @@ increases), and every undisturbed fetch–verify–store / revert cycle for the 
 -/
 namespace Juno.C06
 
-theorem step_reorgDetected_node (cfg : Cfg) (s : Impl) (next : Nat) (latest : Option Hdr) :
-    (s.step cfg (.reorgDetected next latest)).1.node = s.node := by
+theorem step_reorgDetected_node (cfg : Cfg) (s : Impl) (next : Nat) (latest : Option Hdr)
+    (confirm : Option Blk) :
+    (s.step cfg (.reorgDetected next latest confirm)).1.node = s.node := by
   cases ht : s.task with
   | some _ => simp [Impl.step, ht]
   | none =>
     cases latest with
-    | none => cases hir : isReverting cfg s.node.chain next none <;> simp [Impl.step, ht, hir]
-    | some l => cases hir : isReverting cfg s.node.chain next (some l) <;> simp [Impl.step, ht, hir]
+    | none =>
+      cases hir : isReverting cfg s.node.chain next none confirm <;> simp [Impl.step, ht, hir]
+    | some l =>
+      cases hir : isReverting cfg s.node.chain next (some l) confirm <;>
+        cases confirm <;> cases hcl : cfg.confirmLatest <;> simp_all [Impl.step]
+
+theorem step_reorgDetected_task (cfg : Cfg) (s : Impl) (next : Nat) (latest : Option Hdr)
+    (confirm : Option Blk) (ht : s.task = none) :
+    (s.step cfg (.reorgDetected next latest confirm)).1.task =
+      isReverting cfg s.node.chain next latest confirm := by
+  cases latest with
+  | none =>
+    have hir := isReverting_none_latest cfg s.node.chain next confirm
+    simp [Impl.step, ht, hir]
+  | some l =>
+    cases hir : isReverting cfg s.node.chain next (some l) confirm <;>
+      cases confirm <;> cases hcl : cfg.confirmLatest <;> simp_all [Impl.step]
 
 /-- An event whose source-dependent inputs are truthful about the stable chain `src`: a delivered
 block is a block of `src` (for whatever height, whenever it was fetched), a reported latest header
@@ -23,7 +39,7 @@ is the header of some block of `src` (possibly stale), a `revertTask` request fa
 with `src`'s block of that height, `RevertHead` succeeds. -/
 def HonestEv (src : Chain) (s : Impl) : Ev → Prop
   | .deliver _ b _ => b ∈ src
-  | .reorgDetected _ latest => ∀ l, latest = some l → ∃ b ∈ src, b.num = l.num ∧ b.hash = l.hash
+  | .reorgDetected _ latest _ => ∀ l, latest = some l → ∃ b ∈ src, b.num = l.num ∧ b.hash = l.hash
   | .iter ans revOk =>
     revOk = true ∧ (ans = none ∨ ∀ hd tl, s.node.chain = hd :: tl → ans = byNumber? src hd.num)
   | .restart => True
@@ -195,29 +211,30 @@ theorem honest_step {cfg : Cfg} {u : List Blk} {src : Chain} (S : Setting u src)
                 rw [this] at hlt
                 have e : sub64 1 2 = U64 - 1 := by decide
                 rw [e] at hlt; unfold U64 at *; omega
-  | reorgDetected next latest =>
+  | reorgDetected next latest confirm =>
     cases ht : s.task with
     | some lpv =>
-      have : (s.step cfg (.reorgDetected next latest)).1 = s := by simp [Impl.step, ht]
+      have : (s.step cfg (.reorgDetected next latest confirm)).1 = s := by simp [Impl.step, ht]
       rw [this]; exact ⟨I, Nat.le_refl _⟩
     | none =>
-      have hnode : (s.step cfg (.reorgDetected next latest)).1.node = s.node :=
-        step_reorgDetected_node cfg s next latest
+      have hnode : (s.step cfg (.reorgDetected next latest confirm)).1.node = s.node :=
+        step_reorgDetected_node cfg s next latest confirm
       refine ⟨⟨by rw [hnode]; exact I.good, ?_⟩, by rw [hnode]; exact Nat.le_refl _⟩
       intro lpv hl hd tl hs hlt
       rw [hnode] at hs
       cases latest with
       | none =>
-        have hir : isReverting cfg s.node.chain next none = none := by
-          unfold isReverting; cases s.node.chain <;> simp
+        have hir := isReverting_none_latest cfg s.node.chain next confirm
         simp [Impl.step, ht, hir] at hl
       | some l =>
-        cases hir : isReverting cfg s.node.chain next (some l) with
-        | none => simp [Impl.step, ht, hir] at hl
+        cases hir : isReverting cfg s.node.chain next (some l) confirm with
+        | none =>
+          cases confirm <;> cases hcl : cfg.confirmLatest <;> simp_all [Impl.step]
         | some lpv' =>
-          have : lpv = lpv' := by simp [Impl.step, ht, hir] at hl; exact hl.symm
+          have : lpv = lpv' := by
+            cases confirm <;> cases hcl : cfg.confirmLatest <;> simp_all [Impl.step]
           subst this
-          obtain ⟨H, T, lh, hch, _, hle, hlh, hne, hcase⟩ := isReverting_some hir
+          obtain ⟨H, T, lh, hch, _, hle, hlh, hne, _, hcase⟩ := isReverting_some hir
           obtain ⟨x, hx, hxn, hxh⟩ := he l rfl
           have hHlt : H.num + 1 < U64 := by
             have := I.good.bound; rw [hch] at this
@@ -387,8 +404,8 @@ def roundEvents (cfg : Cfg) (src : Chain) (c : Chain) : List Ev :=
          | _ => [])
        else [])
   | none =>
-    .reorgDetected (nextHeight c) (srcLatest src) ::
-      (match isReverting cfg c (nextHeight c) (srcLatest src) with
+    .reorgDetected (nextHeight c) (srcLatest src) (srcConfirm src) ::
+      (match isReverting cfg c (nextHeight c) (srcLatest src) (srcConfirm src) with
        | some lpv => iterEvents cfg src lpv c
        | none => [])
 
@@ -453,31 +470,26 @@ theorem roundEvents_spec (cfg : Cfg) (src : Chain) (s : Impl) (ht : s.task = non
       · simp [hokf, Impl.run_cons, Impl.run, h1.1, hr]
       · simp [hokf, Impl.run_cons, Impl.run, h1.2]
   | none =>
-    have hhon : HonestEv src s (.reorgDetected (nextHeight s.node.chain) (srcLatest src)) := by
+    have hhon : HonestEv src s
+        (.reorgDetected (nextHeight s.node.chain) (srcLatest src) (srcConfirm src)) := by
       intro l hl; exact srcLatest_honest src l hl
     simp only []
-    have hnode := step_reorgDetected_node cfg s (nextHeight s.node.chain) (srcLatest src)
-    cases hir : isReverting cfg s.node.chain (nextHeight s.node.chain) (srcLatest src) with
+    have hnode := step_reorgDetected_node cfg s (nextHeight s.node.chain) (srcLatest src) (srcConfirm src)
+    have htask := step_reorgDetected_task cfg s (nextHeight s.node.chain) (srcLatest src)
+      (srcConfirm src) ht
+    cases hir : isReverting cfg s.node.chain (nextHeight s.node.chain) (srcLatest src)
+        (srcConfirm src) with
     | none =>
-      have h2 : (s.step cfg (.reorgDetected (nextHeight s.node.chain) (srcLatest src))).1.task = none := by
-        cases hl : srcLatest src with
-        | none => rw [hl] at hir; simp [Impl.step, ht, hir]
-        | some l => rw [hl] at hir; simp [Impl.step, ht, hir]
+      rw [hir] at htask
       have hr : (round cfg src s.node).1.chain = s.node.chain := by simp [round, hf, hir]
       refine ⟨⟨hhon, trivial⟩, ?_, ?_⟩
       · simp [Impl.run_cons, Impl.run, hnode, hr]
-      · simp [Impl.run_cons, Impl.run, h2]
+      · simp [Impl.run_cons, Impl.run, htask]
     | some lpv =>
-      have h2 : (s.step cfg (.reorgDetected (nextHeight s.node.chain) (srcLatest src))).1.task = some lpv := by
-        cases hl : srcLatest src with
-        | none =>
-          rw [hl] at hir
-          have : isReverting cfg s.node.chain (nextHeight s.node.chain) none = none := by
-            unfold isReverting; cases s.node.chain <;> simp
-          rw [this] at hir; cases hir
-        | some l => rw [hl] at hir; simp [Impl.step, ht, hir]
+      rw [hir] at htask
       obtain ⟨i1, i2, i3⟩ := iterEvents_spec cfg src lpv s.node.chain
-        (s.step cfg (.reorgDetected (nextHeight s.node.chain) (srcLatest src))).1 h2 (by rw [hnode])
+        (s.step cfg (.reorgDetected (nextHeight s.node.chain) (srcLatest src) (srcConfirm src))).1
+        htask (by rw [hnode])
       have hr : (round cfg src s.node).1.chain = revChain cfg src lpv s.node.chain := by
         simp only [round, hf, hir]
         exact revertTask_chain cfg src _ _ _
@@ -489,6 +501,11 @@ theorem roundEvents_spec (cfg : Cfg) (src : Chain) (s : Impl) (ht : s.task = non
 inductive FairRun (cfg : Cfg) (src : Chain) : Impl → Nat → List Ev → Prop
   | done (s : Impl) : FairRun cfg src s 0 []
   | other (s : Impl) (e : Ev) (es : List Ev) (k : Nat) : HonestEv src s e →
+      FairRun cfg src (s.step cfg e).1 k es → FairRun cfg src s k (e :: es)
+  /-- ANY event (a corrupted or mis-numbered answer, a lie, …) that leaves the chain alone and does
+  not start or re-target a revert task -/
+  | noop (s : Impl) (e : Ev) (es : List Ev) (k : Nat) : (s.step cfg e).1.node.chain = s.node.chain →
+      ((s.step cfg e).1.task = s.task ∨ (s.step cfg e).1.task = none) →
       FairRun cfg src (s.step cfg e).1 k es → FairRun cfg src s k (e :: es)
   | round (s : Impl) (es : List Ev) (k : Nat) : s.task = none →
       FairRun cfg src (Impl.run cfg s (roundEvents cfg src s.node.chain)).1 k es →
@@ -504,6 +521,15 @@ theorem fair_run_converges {cfg : Cfg} {u : List Blk} {src : Chain} (S : Setting
     obtain ⟨I1, m1⟩ := honest_step S I e he
     rw [Impl.run_cons]
     exact ih I1 (Nat.le_trans m1 hm)
+  | noop s e es k hc ht _ ih =>
+    intro I hm
+    rw [Impl.run_cons]
+    refine ih ⟨by rw [hc]; exact I.good, ?_⟩ (by rw [hc]; exact hm)
+    intro lpv hl hd tl hs hlt
+    rw [hc] at hs
+    rcases ht with h | h
+    · exact I.task lpv (by rw [← h]; exact hl) hd tl hs hlt
+    · rw [h] at hl; cases hl
   | round s es k ht _ ih =>
     intro I hm
     obtain ⟨hr, hc, _⟩ := roundEvents_spec cfg src s ht
@@ -516,5 +542,75 @@ theorem fair_run_converges {cfg : Cfg} {u : List Blk} {src : Chain} (S : Setting
       have : measure src src = 0 := by unfold measure; simp
       omega
     · have := (round_measure (cfg := cfg) S I.good).2 he; omega
+
+/-! ### from any state: a running revert task ends, whatever it is fed -/
+
+theorem good_pop_any {cfg : Cfg} {u : List Blk} {src : Chain} {H : Blk} {T : Chain}
+    (G : Good cfg u src (H :: T)) : Good cfg u src T := by
+  refine ⟨G.linked.tail, fun x hx => G.sub x (List.mem_cons_of_mem _ hx),
+    by have := G.bound; simp at this; omega, ?_, ?_⟩
+  · intro h
+    have h1 := G.notTrunc (h.trans (List.suffix_cons _ _))
+    have := h.length_le
+    rw [h1] at this; simp at this; omega
+  · rcases G.noUnderflow with h | h | h
+    · exact Or.inl h
+    · exact Or.inr (Or.inl h)
+    · right; right; have h' : T.length + 1 ≤ 1 := h; omega
+
+/-- `iter` events only: each one ends the task or removes the head; `Good` is kept. -/
+theorem iter_step_any {cfg : Cfg} {u : List Blk} {src : Chain} {s : Impl} (ans : Option Blk)
+    (G : Good cfg u src s.node.chain) :
+    Good cfg u src (s.step cfg (.iter ans true)).1.node.chain ∧
+    ((s.step cfg (.iter ans true)).1.task = none ∨
+      ((s.step cfg (.iter ans true)).1.task = s.task ∧
+        (s.step cfg (.iter ans true)).1.node.chain.length + 1 = s.node.chain.length)) := by
+  cases ht : s.task with
+  | none =>
+    have : (s.step cfg (.iter ans true)).1 = s := by simp [Impl.step, ht]
+    rw [this]; exact ⟨G, Or.inl ht⟩
+  | some lpv =>
+    cases hch : s.node.chain with
+    | nil =>
+      have hn : (s.step cfg (.iter ans true)).1.node = s.node ∧
+          (s.step cfg (.iter ans true)).1.task = none := by simp [Impl.step, ht, hch]
+      exact ⟨by rw [hn.1]; exact G, Or.inl hn.2⟩
+    | cons H T =>
+      obtain ⟨fb, fr⟩ := step_iter_facts cfg s lpv H T ans ht hch
+      cases hit : revertIter cfg lpv H ans with
+      | brk =>
+        obtain ⟨h1, h2⟩ := fb hit
+        exact ⟨by rw [h1]; exact G, Or.inl h2⟩
+      | revert cont =>
+        obtain ⟨h1, h2⟩ := fr cont hit
+        refine ⟨by rw [h1]; exact good_pop_any (hch ▸ G), ?_⟩
+        cases cont with
+        | false => left; simpa using h2
+        | true => right; exact ⟨by simpa using h2, by rw [h1]; simp⟩
+
+/-- TERMINATION of a running task: after `|chain| + 1` iterations (with arbitrary answers) no task
+is running, and the chain still satisfies `Good`. -/
+theorem task_terminates {cfg : Cfg} {u : List Blk} {src : Chain} :
+    ∀ (answers : List (Option Blk)) (s : Impl), Good cfg u src s.node.chain →
+      s.node.chain.length < answers.length →
+      (Impl.run cfg s (answers.map (fun a => Ev.iter a true))).1.task = none ∧
+      Good cfg u src (Impl.run cfg s (answers.map (fun a => Ev.iter a true))).1.node.chain
+  | [], s, _, h => by simp at h
+  | a :: as, s, G, h => by
+    obtain ⟨G1, hcase⟩ := iter_step_any (cfg := cfg) (s := s) a G
+    simp only [List.map_cons, Impl.run_cons]
+    rcases hcase with hn | ⟨_, hlen⟩
+    · -- the task is over: further iterations change nothing
+      have hstay : ∀ (bs : List (Option Blk)) (t : Impl), t.task = none →
+          (Impl.run cfg t (bs.map (fun a => Ev.iter a true))).1 = t := by
+        intro bs
+        induction bs with
+        | nil => intro t _; rfl
+        | cons b bs ih =>
+          intro t ht
+          have : (t.step cfg (.iter b true)).1 = t := by simp [Impl.step, ht]
+          simp only [List.map_cons, Impl.run_cons, this]; exact ih t ht
+      rw [hstay as _ hn]; exact ⟨hn, G1⟩
+    · exact task_terminates as _ G1 (by simp at h; omega)
 
 end Juno.C06
